@@ -101,6 +101,7 @@ POOLS = {
         "s1": ["s1", 'say "hi"', "a\\b", "l1\nl2", "ü<&>'", " lead ", "tab\there", "中文 \U0001F600"],
         "s2": ["s2", "x=1, y=[2]", "'single'", "semi;colon", "%% @en", "\\\\server\\share", "q\"\"\"q"],
         "e": [""],
+        "n1": ["1"],          # a string with the text of the int 1 (same text, other kind)
         # quoting hazards: multi-line AND quotes, trailing quote / backslash, lone specials
         "nq": ['l1\nl2"', 'a\n"""b', '"', "\\", "ends\\", 'x\n\\"y\n', "<b>&amp;</b>", 'tab\t"q"', "''' '",
                "a<b & c>", "<i>x</i>", "R&D <tag/>"],
